@@ -1573,9 +1573,11 @@ impl TypeLayout {
             }
             (Self::List(ListType::Mixed(t1)), Self::List(ListType::Mixed(t2)), _) => {
                 let flags = Box::new(flags.deref());
-                t1.iter()
-                    .zip(t2.iter())
-                    .all(|(x, y)| x.eq_complex(y, *flags))
+                t1.len() == t2.len()
+                    && t1
+                        .iter()
+                        .zip(t2.iter())
+                        .all(|(x, y)| x.eq_complex(y, *flags))
             }
             (Self::List(ListType::Open(t1)), Self::List(ListType::Open(t2)), _) => {
                 t1.eq_complex(t2, flags)
